@@ -18,7 +18,8 @@ RULE = ("heartbeat streams of 1-40 heartbeats with strictly increasing timestamp
         "(zero and positive durations, repeated/alternating data, gaps below/at/above the pulsetime, zero-length "
         "heartbeats whose end ties with the previous event's end) × pulsetimes {0, fractional, large}, fed through "
         "get(limit=1) -> heartbeat_merge -> replace_last | insert on each backend, in a store that also holds 1-2 "
-        "other buckets (created before and after) whose events end at the stream's own instants; after EVERY "
+        "other buckets (created before and after) whose events end at the stream's own instants; in a quarter of the cases the "
+        "bucket is deleted and re-created mid-stream and the stream carries on; after EVERY "
         "heartbeat the bucket is compared with heartbeat_reduce(prefix) (real transform and integer reference) and "
         "the other buckets with their initial dump; evaluations = heartbeats; non-trivial = stream has a merge and a "
         "non-merge and an end-tie or a coinciding instant elsewhere; signature = (backend, decision-string class, "
@@ -79,7 +80,9 @@ def gen_case(rng, ctx):
             s = e - rng.choice([0, 1000, unit, 3 * unit])
             evs.append(dict(ts=floor_ms(max(0, s)), dur=e - floor_ms(max(0, s)), data={"other": j, "k": k}))
         others.append(dict(when=rng.choice(["before", "after"]), evs=evs))
-    return dict(backend=backend, stream=stream, pulse_us=pu, others=others)
+    # the watcher's bucket may be deleted and re-created mid-stream (the watcher simply carries on)
+    recreate_at = rng.randrange(1, n) if n > 1 and rng.random() < 0.25 else None
+    return dict(backend=backend, stream=stream, pulse_us=pu, others=others, recreate_at=recreate_at)
 
 
 def _t(e):
@@ -109,7 +112,13 @@ def run_case(case, ctx):
         others0 = dump_store(ds, skip={"hb"})
         stream = [mk_event(s) for s in case["stream"]]
         tuples = [_t(e) for e in stream]
+        first = 0
         for k, hb in enumerate(stream):
+            if case.get("recreate_at") == k:
+                ds.delete_bucket("hb")
+                b = ds.create_bucket("hb", type="t", client="c", hostname="h")
+                first = k
+                ctx.count("bucket_recreated_mid_stream")
             last = b.get(limit=1)
             merged = hbm.heartbeat_merge(last[0], copy.deepcopy(hb), p) if last else None
             if merged is not None:
@@ -122,8 +131,8 @@ def run_case(case, ctx):
                 ctx.count("inserts")
             ctx.count(f"heartbeats.{backend}")
             got = Counter(t[1:] for t in (obs(e) for e in b.get(-1)))
-            want_ref = ref_reduce(tuples[:k + 1], pu)
-            want_real = [_t(e) for e in hbm.heartbeat_reduce(copy.deepcopy(stream[:k + 1]), p)]
+            want_ref = ref_reduce(tuples[first:k + 1], pu)
+            want_real = [_t(e) for e in hbm.heartbeat_reduce(copy.deepcopy(stream[first:k + 1]), p)]
             if got != Counter(want_ref) or got != Counter(want_real):
                 miss = list((Counter(want_ref) - got).elements())[:3]
                 extra = list((got - Counter(want_ref)).elements())[:3]
@@ -141,7 +150,8 @@ def run_case(case, ctx):
     end_tie = any(a == b_ for a, b_ in zip(ends, ends[1:]))
     co = any(o["evs"] for o in case["others"])
     cls = ("m" in decisions, "i" in decisions[1:], "mi" in decisions, "im" in decisions[1:])
-    sig = (backend, cls, end_tie, tuple(sorted({o["when"] for o in case["others"]})), 0 if pu == 0 else (1 if pu < 10**7 else 2))
+    sig = (backend, cls, end_tie, tuple(sorted({o["when"] for o in case["others"]})), 0 if pu == 0 else (1 if pu < 10**7 else 2),
+           case.get("recreate_at") is not None)
     nontriv = cls[0] and cls[1] and (end_tie or co)
     n = len(stream)
     return viols, dict(sig=sig, nontrivial=nontriv, weight=n)
